@@ -101,6 +101,8 @@ import (
 	"go/token"
 	"go/types"
 
+	"golang.org/x/tools/go/packages"
+
 	"verif/internal/core"
 	"verif/internal/flow"
 	"verif/internal/load"
@@ -387,14 +389,104 @@ type c17LLRoles struct {
 	onceFields []*types.Var
 }
 
+// c17SemLike: t is *sem.Semaphore, or an interface declared in pkg that *sem.Semaphore implements and
+// into which (fields / variables of that type) only *sem.Semaphore values are ever stored in pkg — an
+// unexported interface put in front of the single implementation.
+var c17semLikeMemo = map[string]bool{}
+
+func c17SemLike(pkg *packages.Package, t types.Type) bool {
+	if t == nil {
+		return false
+	}
+	if t.String() == c17SemT {
+		return true
+	}
+	named, ok := t.(*types.Named)
+	if !ok || named.Obj().Pkg() != pkg.Types {
+		return false
+	}
+	iface, ok := named.Underlying().(*types.Interface)
+	if !ok {
+		return false
+	}
+	key := pkg.PkgPath + "." + named.Obj().Name()
+	if v, seen := c17semLikeMemo[key]; seen {
+		return v
+	}
+	c17semLikeMemo[key] = false
+	var semPtr types.Type
+	for _, imp := range pkg.Types.Imports() {
+		if imp.Path() == Mod+c17Sem {
+			if o := imp.Scope().Lookup("Semaphore"); o != nil {
+				semPtr = types.NewPointer(o.Type())
+			}
+		}
+	}
+	if semPtr == nil || !types.Implements(semPtr, iface) {
+		return false
+	}
+	stores, okStores := 0, true
+	check := func(dst types.Type, val ast.Expr) {
+		if dst == nil || !types.Identical(dst, named) || val == nil {
+			return
+		}
+		tv := pkg.TypesInfo.Types[val]
+		if tv.IsNil() {
+			return
+		}
+		stores++
+		if tv.Type == nil || (tv.Type.String() != c17SemT && !types.Identical(tv.Type, named)) {
+			okStores = false
+		}
+	}
+	for _, file := range pkg.Syntax {
+		ast.Inspect(file, func(n ast.Node) bool {
+			switch x := n.(type) {
+			case *ast.KeyValueExpr:
+				if id, ok := x.Key.(*ast.Ident); ok {
+					if fv, ok := pkg.TypesInfo.Uses[id].(*types.Var); ok && fv.IsField() {
+						check(fv.Type(), x.Value)
+					}
+				}
+			case *ast.AssignStmt:
+				if len(x.Lhs) == len(x.Rhs) {
+					for i, l := range x.Lhs {
+						if tv := pkg.TypesInfo.Types[l]; tv.Type != nil {
+							check(tv.Type, x.Rhs[i])
+						} else if id, ok := l.(*ast.Ident); ok {
+							if o := pkg.TypesInfo.Defs[id]; o != nil {
+								check(o.Type(), x.Rhs[i])
+							}
+						}
+					}
+				}
+			}
+			return true
+		})
+	}
+	c17semLikeMemo[key] = stores > 0 && okStores
+	return c17semLikeMemo[key]
+}
+
 func c17IsSemCall(f *flow.Func, call *ast.CallExpr, names ...string) bool {
 	fo := c17CalleeFunc(f, call)
 	if fo == nil {
 		return false
 	}
 	sig, _ := fo.Type().(*types.Signature)
-	if sig == nil || sig.Recv() == nil || sig.Recv().Type().String() != c17SemT {
+	if sig == nil || sig.Recv() == nil {
 		return false
+	}
+	if sig.Recv().Type().String() != c17SemT {
+		// a method of an interface standing in for the semaphore: judge by the static type of the receiver expression
+		sel := c17CallSel(f, call)
+		if sel == nil {
+			return false
+		}
+		tv := f.Info.Types[sel.X]
+		if _, isIface := sig.Recv().Type().Underlying().(*types.Interface); !isIface || !c17SemLike(f.Pkg, tv.Type) {
+			return false
+		}
 	}
 	for _, n := range names {
 		if fo.Name() == n {
@@ -410,9 +502,16 @@ func c17ResolveLL(c *core.Ctx) *c17LLRoles {
 	if r.ll == nil {
 		return nil
 	}
-	sf := c17FieldsByType(r.ll, c17SemT)
+	var sf []*types.Var
+	if st, ok := r.ll.Underlying().(*types.Struct); ok {
+		for i := 0; i < st.NumFields(); i++ {
+			if c17SemLike(c.Prog.Pkg(c17LL), st.Field(i).Type()) {
+				sf = append(sf, st.Field(i))
+			}
+		}
+	}
 	if len(sf) != 1 {
-		c.Errorf("R-C17-1: anchor: LimitListener has %d fields of type *sem.Semaphore, expected 1", len(sf))
+		c.Errorf("R-C17-1: anchor: LimitListener has %d fields holding the *sem.Semaphore (directly or behind a package-local interface), expected 1", len(sf))
 		return nil
 	}
 	r.semField = sf[0]
@@ -421,12 +520,32 @@ func c17ResolveLL(c *core.Ctx) *c17LLRoles {
 		if fo == nil || fo.Name() == "Accept" {
 			continue
 		}
+		// thin wrappers only: a method that acquires AND (conditionally) gives the slot back or consults the
+		// listener's context is a part of the accept protocol and is interpreted in place, not summarised
+		acq, rel, ctx := false, false, false
 		for _, call := range calls(m.Body, true) {
 			if c17IsSemCall(m, call, "AcquireWithContext", "Acquire") {
-				r.acqHelpers[fo] = m
+				acq = true
 			}
 			if c17IsSemCall(m, call, "Release") {
-				r.relHelpers[fo] = m
+				rel = true
+			}
+			if co := c17CalleeFunc(m, call); co != nil && co.FullName() == "(context.Context).Err" {
+				ctx = true
+			}
+		}
+		if rel && !acq {
+			r.relHelpers[fo] = m
+		}
+		if acq && !rel && !ctx {
+			r.acqHelpers[fo] = m
+		}
+	}
+	// an acquire wrapper that calls a release wrapper is not thin either
+	for fo, m := range r.acqHelpers {
+		for _, call := range calls(m.Body, true) {
+			if co := c17CalleeFunc(m, call); co != nil && r.relHelpers[co] != nil {
+				delete(r.acqHelpers, fo)
 			}
 		}
 	}
@@ -660,6 +779,12 @@ func c17Accept(c *core.Ctx) {
 			if callee != nil && (r.acqHelpers[callee.Origin()] != nil || r.relHelpers[callee.Origin()] != nil) {
 				return nil
 			}
+			// `return h(..)`: h decides what this exit returns, interpret it whatever it contains
+			if _, isRet := pm[call].(*ast.ReturnStmt); isRet && callee != nil {
+				if g := bind.byObj[callee.Origin()]; g != nil && g != f {
+					return g
+				}
+			}
 			return inl(call, callee)
 		},
 		OnNode: func(st *flow.State, n ast.Node) { latch(st) },
@@ -737,11 +862,13 @@ func c17Accept(c *core.Ctx) {
 		isErr := ex.Kind == flow.ExitPanic
 		var ret ast.Expr
 		if ex.Kind == flow.ExitReturn {
-			if ex.Return == nil || len(ex.Return.Results) != 2 {
+			// `return h(..)` with h interpreted in place: the values come from h's return statement
+			rs := ex.Ret()
+			if rs == nil || len(rs.Results) != 2 {
 				c.Undecide("R-C17-1", cons+"|error exits release iff acquired", pos(c, ex.At), "return without explicit results: cannot classify the exit")
 				return
 			}
-			ret = ast.Unparen(ex.Return.Results[0])
+			ret = ast.Unparen(rs.Results[0])
 			if id, ok := ret.(*ast.Ident); ok && id.Name == "nil" {
 				if _, isNil := f.Info.Uses[id].(*types.Nil); isNil {
 					isErr = true
@@ -804,7 +931,31 @@ func c17Accept(c *core.Ctx) {
 }
 
 // c17Transfers reports whether expr is (a variable holding) &wrapper{... release: <release of the listener>}.
+// c17Subst maps the parameters of a constructor helper to the arguments of its call (in the caller).
+type c17Subst struct {
+	caller *flow.Func
+	args   map[types.Object]ast.Expr
+	up     *c17Subst
+}
+
+// carrierOK: the value stored in the carrier field hands over this listener's release; a constructor's
+// parameter stands for the argument it was called with.
+func (sub *c17Subst) carrierOK(f *flow.Func, r *c17LLRoles, e ast.Expr) bool {
+	if sub != nil && e != nil {
+		if o := c17Obj(f, ast.Unparen(e)); o != nil {
+			if a, ok := sub.args[o]; ok {
+				return sub.up.carrierOK(sub.caller, r, a)
+			}
+		}
+	}
+	return c17CarrierValue(f, r, e)
+}
+
 func c17Transfers(f *flow.Func, r *c17LLRoles, e ast.Expr, depth int) bool {
+	return c17TransfersS(f, r, e, depth, nil)
+}
+
+func c17TransfersS(f *flow.Func, r *c17LLRoles, e ast.Expr, depth int, sub *c17Subst) bool {
 	e = ast.Unparen(e)
 	if u, ok := e.(*ast.UnaryExpr); ok && u.Op == token.AND {
 		e = ast.Unparen(u.X)
@@ -821,6 +972,18 @@ func c17Transfers(f *flow.Func, r *c17LLRoles, e ast.Expr, depth int) bool {
 			return false
 		}
 		g := flow.NewFunc(f.Pkg, fd)
+		inner := &c17Subst{caller: f, args: map[types.Object]ast.Expr{}, up: sub}
+		if fd.Type.Params != nil {
+			k := 0
+			for _, fld := range fd.Type.Params.List {
+				for _, nm := range fld.Names {
+					if o := g.Info.Defs[nm]; o != nil && k < len(x.Args) {
+						inner.args[o] = x.Args[k]
+					}
+					k++
+				}
+			}
+		}
 		n, ok := 0, true
 		ast.Inspect(fd.Body, func(nd ast.Node) bool {
 			if _, isLit := nd.(*ast.FuncLit); isLit {
@@ -828,7 +991,7 @@ func c17Transfers(f *flow.Func, r *c17LLRoles, e ast.Expr, depth int) bool {
 			}
 			if rs, isRet := nd.(*ast.ReturnStmt); isRet {
 				n++
-				if len(rs.Results) != 1 || !c17Transfers(g, r, rs.Results[0], depth+1) {
+				if len(rs.Results) != 1 || !c17TransfersS(g, r, rs.Results[0], depth+1, inner) {
 					ok = false
 				}
 			}
@@ -855,7 +1018,7 @@ func c17Transfers(f *flow.Func, r *c17LLRoles, e ast.Expr, depth int) bool {
 			if fld != r.relField {
 				continue
 			}
-			return c17CarrierValue(f, r, val)
+			return sub.carrierOK(f, r, val)
 		}
 		return false
 	case *ast.Ident:
@@ -880,7 +1043,7 @@ func c17Transfers(f *flow.Func, r *c17LLRoles, e ast.Expr, depth int) bool {
 		if len(rhs) != 1 {
 			return false
 		}
-		if c17Transfers(f, r, rhs[0], depth+1) {
+		if c17TransfersS(f, r, rhs[0], depth+1, sub) {
 			return true
 		}
 		// field moved out of the literal: x := &wrapper{Conn: c}; x.release = <release>
@@ -896,7 +1059,7 @@ func c17Transfers(f *flow.Func, r *c17LLRoles, e ast.Expr, depth int) bool {
 			return false
 		}
 		sets := c17ReleaseSets(f, r, obj)
-		return len(sets) == 1 && c17CarrierValue(f, r, sets[0])
+		return len(sets) == 1 && sub.carrierOK(f, r, sets[0])
 	}
 	return false
 }
@@ -1029,6 +1192,32 @@ func c17FreshWrapper(f *flow.Func, r *c17LLRoles, obj types.Object) bool {
 // c17IsReleaseValue: a method value of a release helper, or a func literal calling one.
 func c17IsReleaseValue(f *flow.Func, r *c17LLRoles, e ast.Expr) bool {
 	e = ast.Unparen(e)
+	// a local that names the value (assigned exactly once)
+	if id, ok := e.(*ast.Ident); ok {
+		if obj, isVar := f.Info.Uses[id].(*types.Var); isVar && !obj.IsField() {
+			var rhs []ast.Expr
+			ast.Inspect(f.Body, func(n ast.Node) bool {
+				if as, ok := n.(*ast.AssignStmt); ok {
+					for i, l := range as.Lhs {
+						if c17Obj(f, l) == types.Object(obj) {
+							if len(as.Lhs) == len(as.Rhs) {
+								rhs = append(rhs, as.Rhs[i])
+							} else {
+								rhs = append(rhs, nil)
+							}
+						}
+					}
+				}
+				return true
+			})
+			if len(rhs) == 1 && rhs[0] != nil {
+				if _, again := ast.Unparen(rhs[0]).(*ast.Ident); !again {
+					return c17IsReleaseValue(f, r, rhs[0])
+				}
+			}
+		}
+		return false
+	}
 	switch x := e.(type) {
 	case *ast.SelectorExpr:
 		if s := f.Info.Selections[x]; s != nil && s.Kind() == types.MethodVal {
